@@ -149,6 +149,35 @@ RETURN_LAYOUTS = {
 }
 
 
+# layouts of one parameter entry: subscripted types with commas of their own, the `, optional` marker, both; *args/**kwargs entries with types
+PARAM_LAYOUTS = {
+    "google": ["a (Dict[str, int], optional): the a", "a (int, optional): the a. Defaults to 5", "a (Tuple[float, float]): the a", "a (Literal['x', 'y'], optional): the a",
+               "**kwargs (Dict[str, Any], optional): keywords", "a (Callable[[int, str], int]): the a", "a (Union[int, str], optional): the a\n    continued here", "a (Optional[Dict[str, List[int]]]): the a"],
+    "numpydoc": ["a : Dict[str, int], optional\n    the a", "a : int, optional\n    the a. Defaults to 5", "a : Tuple[float, float]\n    the a", "a : Literal['x', 'y'], optional\n    the a",
+                 "**kwargs : Dict[str, Any], optional\n    keywords", "a : Callable[[int, str], int]\n    the a", "a : Union[int, str], optional\n    the a\n    continued here", "a : Optional[Dict[str, List[int]]]\n    the a"],
+    "rest": [":param a: the a\n:type a: ```Dict[str, int]```", ":param a: the a\n:type a: Dict[str, int]", ":param a: the a\n:type a: ```Optional[Dict[str, List[int]]]```", ":param a: the a\n:type a: ```Callable[[int, str], int]```",
+             ":param kwargs: keywords\n:type kwargs: ```**Dict[str, Any]```"],
+}
+
+
+def param_layout_docstrings():
+    for style, layouts in PARAM_LAYOUTS.items():
+        secs = SECTIONS[style]
+        head = {"google": "Args:\n", "numpydoc": "Parameters\n----------\n", "rest": ""}[style]
+        ind = "  " if style == "google" else ""
+        for li, layout in enumerate(layouts):
+            for second in (None, {"google": "b (int): the b", "numpydoc": "b : int\n    the b", "rest": ":param b: the b\n:type b: ```int```"}[style]):
+                entries = [layout] + ([second] if second else [])
+                for order in ((0, 1), (1, 0)) if second else ((0,),):
+                    body = head + "".join("\n".join(ind + l for l in entries[i].split("\n")) + "\n" + ("\n" if style == "rest" else "") for i in order)
+                    for before, after in ((["header"], []), ([], ["returns"]), (["header"], ["returns", "notes"])):
+                        for indent in ("", "    "):
+                            text = "\n".join([secs[x] for x in before] + [body] + [secs[x] for x in after])
+                            if indent:
+                                text = "\n".join(indent + l if l else l for l in text.split("\n"))
+                            yield dict(style=style, sections=before + ["param#%d%s" % (li, "" if not second else "+b" if order == (0, 1) else "b+")] + after, sep=1, indent=len(indent)), text
+
+
 def return_layout_docstrings():
     for style, layouts in RETURN_LAYOUTS.items():
         secs = SECTIONS[style]
@@ -367,7 +396,7 @@ def cases(tier, seed):
     for i in range(len(c11.SIGMA_DOC)):
         for j in range(len(c11.SIGMA_DOC)):
             yield dict(kind="doc_block", prefix=[i, j], maxlen=n)
-    gd = list(grammar_docstrings()) + list(return_layout_docstrings())
+    gd = list(grammar_docstrings()) + list(return_layout_docstrings()) + list(param_layout_docstrings())
     for lo in range(0, len(gd), 50):
         yield dict(kind="grammar_block", lo=lo, hi=lo + 50)
     pf = list(partial_functions())
@@ -419,7 +448,7 @@ def run(case):
                 outcomes.add("returns")
                 report("docstring", ir, dict(kind="doc_string", string=s), source="tokens")
     elif case["kind"] == "grammar_block":
-        for key, text in (list(grammar_docstrings()) + list(return_layout_docstrings()))[case["lo"]: case["hi"]]:
+        for key, text in (list(grammar_docstrings()) + list(return_layout_docstrings()) + list(param_layout_docstrings()))[case["lo"]: case["hi"]]:
             n += 1
             transitions += 1
             try:
@@ -623,7 +652,7 @@ def describe(tier):
         "parsed as live objects (inspect path); (g) {lay} legal but unusually laid out classes, functions and argparse functions (multi-target and tuple assignments, type comments, nested and decorated definitions, "
         "positional-only/keyword-only, async, line continuation, argparse positionals/nargs/actions/groups) through the AST parsers with and without infer_type; (h) {sq} hand-written SQLAlchemy models (subsets of primary_key / ForeignKey / nullable / default / comment / unique on one column, documented or not, class and Table forms); (e) {j} JSON-schema documents: a property built from "
         "8 types x 7 patterns (word lists, lists with non-letters, a real regex) x 8 further keywords (enum, format, items, $ref, anyOf, bounds, title) x default x description x required; "
-        "a case = one parser input".format(n=3 if tier == "quick" else 4, g=sum(1 for _ in grammar_docstrings()) + sum(1 for _ in return_layout_docstrings()), p=sum(1 for _ in partial_functions()), j=sum(1 for _ in json_schema_documents()), lc=sum(1 for _ in live_classes()), lay=len(LAYOUT_CLASSES) + len(LAYOUT_FUNCTIONS) + len(LAYOUT_ARGPARSE), sq=sum(1 for _ in sqlalchemy_layouts())),
+        "a case = one parser input".format(n=3 if tier == "quick" else 4, g=sum(1 for _ in grammar_docstrings()) + sum(1 for _ in return_layout_docstrings()) + sum(1 for _ in param_layout_docstrings()), p=sum(1 for _ in partial_functions()), j=sum(1 for _ in json_schema_documents()), lc=sum(1 for _ in live_classes()), lay=len(LAYOUT_CLASSES) + len(LAYOUT_FUNCTIONS) + len(LAYOUT_ARGPARSE), sq=sum(1 for _ in sqlalchemy_layouts())),
         bounds=dict(sigma_doc=c11.SIGMA_DOC, sections=list(SECTIONS["rest"]), signature=SIG),
         exhaustive=True,
         assumptions=["shape predicate mc/checks/c14.py:wellformed transcribes the property text; 'doc' may be None at the top level as the declared type says Optional[str]"],
